@@ -45,6 +45,7 @@ fn main() {
         Some("c10") => c10::run(&params),
         Some("c11") => c11::run(&params),
         Some("c12") => c12::run(&params),
+        Some("fuzzcase") => c11::fuzzcase(args.get(2).map(String::as_str).unwrap_or("")),
         Some("replay") => match args.get(2).map(String::as_str) {
             Some("c11") => c11::replay(&args[3], args.get(4).map(String::as_str).unwrap_or("")),
             Some("c12") => c12::replay(&args[3..]),
